@@ -434,8 +434,10 @@ def option_values(tier):
     out += [("file-transformation", dec(v)) for v in FT_VALUES]
     for o, vs in list(NUM_VALUES.items()) + list(ENUM_VALUES.items()):
         out += [(o, dec(v)) for v in vs]
-    for o in STYLE_OPTS_ALL:
-        out += [(o, dec(v)) for v in STYLE_VALUES]
+    for i, o in enumerate(STYLE_OPTS_ALL):
+        # quick: every style option gets half of the values (alternating halves, so every value meets both kinds of
+        # option); C12 covers the style grammar itself
+        out += [(o, dec(v)) for v in (STYLE_VALUES if tier == "thorough" else STYLE_VALUES[i % 2::2])]
     return out
 
 
@@ -561,7 +563,7 @@ def run_optvals(task):
 def plan_optvals(tier, deadline):
     vals = option_values(tier)
     if tier == "quick":
-        modes = OPT_MODES[:4]
+        modes = OPT_MODES[:3]
         pairs = [(v,) for v in vals]
     else:
         modes = OPT_MODES
@@ -691,12 +693,22 @@ def main(tier):
     cap = 50 if tier == "quick" else 1200
     deadline = t0 + cap
     wmax = 64 if tier == "quick" else 130
+    lt = {}
+    t1 = time.time()
     res_d = explore.pmap(run_deco, [(list(range(i, wmax + 1, 16)), deadline) for i in range(1, 17)])
+    lt["decoration_width_sweep"] = round(time.time() - t1, 1)
+    t1 = time.time()
     wr = list(range(14, 48)) if tier == "quick" else list(range(8, 100))
     res_w = explore.pmap(run_wrap, [(wr[i::8], wm, deadline) for i in range(8) for wm in ("2", "unlimited")])
+    lt["wrap_sweep"] = round(time.time() - t1, 1)
+    t1 = time.time()
     res_b = explore.pmap(run_bytes, [t + (deadline,) for t in byte_tasks])
+    lt["byte_layer"] = round(time.time() - t1, 1)
+    t1 = time.time()
     otasks, n_optvals, n_optpairs, n_optmodes = plan_optvals(tier, deadline)
     res_o = explore.pmap(run_optvals, otasks)
+    lt["option_value_layer"] = round(time.time() - t1, 1)
+    t1 = time.time()
     sharded = []
     for t in hostile:
         if t[4] >= 3:
@@ -705,6 +717,7 @@ def main(tier):
             sharded.append(t + (deadline,))
     sharded.sort(key=lambda t: -t[4])
     res_h = explore.pmap(run_hostile, sharded)
+    lt["hostile_line_search"] = round(time.time() - t1, 1)
     viols = []
     states = transitions = renders = 0
     snaps = set()
@@ -791,7 +804,7 @@ def main(tier):
     cov = {
         "states": states, "transitions": transitions,
         "traces_validated_against_impl": renders + nbytes + ncli + ndeco + nopt + nwrap,
-        "wrap_exact_fit_sweep_renders": nwrap,
+        "wrap_exact_fit_sweep_renders": nwrap, "layer_wall_s": lt,
         "option_value_layer": {"option_values": n_optvals, "deviation_tuples": n_optpairs, "modes": n_optmodes,
                                "corpus_inputs": len(OPT_CORPUS), "configurations_accepted": nopt_conf,
                                "configurations_rejected_by_delta": nopt_rej, "renders": nopt,
